@@ -73,7 +73,10 @@ theorem findIdx_wf (t0 : Int) (ts : List Int) (hw : WfTraj t0 ts) (t : Int) :
     rw [hw i hi]
     simp; omega
 
-/-- C04 (a): for dynamic obstacles the state returned for `t` is the one whose time step is `t`. -/
+/-- C04 (a): for dynamic obstacles the state returned for `t` is the one whose time step is `t` — for WELL-FORMED
+    trajectories (`WfTraj`: state i carries time step t0 + i, the precondition `Trajectory` documents: "the time
+    discretization between two states matches the time discretization of the scenario"; the constructor only checks
+    the first state). Without it the clause is false, see `C04_witness_gapped_trajectory`. -/
 theorem C04_dyn_state_time (tInit t0 : Int) (ts : List Int) (hw : WfTraj t0 ts) (t : Int) (i : Nat)
     (h : stateAt (.dynamic tInit (.traj t0 ts)) t = some (.traj i)) : ts[i]? = some t := by
   simp only [stateAt] at h
@@ -90,6 +93,19 @@ theorem C04_dyn_state_time (tInit t0 : Int) (ts : List Int) (hw : WfTraj t0 ts) 
         rw [List.getElem?_eq_getElem hi, hw _ hi]; simp; omega
       · cases hk
     · cases h
+
+/-- The hypothesis `WfTraj` is needed: a trajectory with a gap in its time steps (accepted by the constructor, which only
+    checks the first state) answers `state_at_time(4)` with the state of time step 5, while `occupancy_at_time(4)` is
+    `None` (the occupancy scan goes by the states' own time stamps). Such trajectories violate the documented
+    precondition and are outside the property's "time horizon" notion; the harness replays this witness on the real
+    code and counts it as excluded. -/
+theorem C04_witness_gapped_trajectory :
+    ¬ WfTraj 3 [3, 5, 6] ∧ stateAt (.dynamic 2 (.traj 3 [3, 5, 6])) 4 = some (.traj 1) ∧ ([3, 5, 6] : List Int)[1]? = some 5 ∧
+    occupancyAt (.dynamic 2 (.traj 3 [3, 5, 6])) 4 = none := by
+  refine ⟨?_, by decide, by decide, by decide⟩
+  intro h
+  have := h 1 (by simp)
+  simp at this
 
 /-- C04 (b): inside the horizon (after the initial step) the occupancy is the shape placed at the
     trajectory state of that very time step, and `state_at_time` returns the same state. -/
@@ -164,7 +180,9 @@ theorem C04_set_based (tInit : Int) (occs : List TS) (t : Int) (h : tInit < t) :
   · simp [occupancyAt, hne, h]
   · simp [stateAt, hne]
 
-/-! ### scenario-level queries return exactly what the per-obstacle answers imply -/
+/-! ### scenario-level queries return exactly what the per-obstacle answers imply
+  (membership characterisations of the model's comprehensions — the comprehensions mirror the code's loops, so these
+  theorems mostly document the model; order and multiplicity are those of `List.filterMap` over the obstacle list) -/
 
 theorem C04_occupancies_iff (obs : List (Nat × Obst)) (t : Int) (role : Option Role) (i : Nat) (oc : Occ) :
     (i, oc) ∈ occupanciesAt obs t role ↔
@@ -300,32 +318,46 @@ theorem C04_enclosure_box (l w ls ws lpsi wpsi c s x y px py : Rat)
   · calc |py + (s * x + c * y)| ≤ |py| + |s * x + c * y| := abs_add_le _ _
       _ ≤ (ws + w + wpsi) / 2 := by linarith
 
-/-- What is NOT proved: that the code's `l_v, w_v` (axis-aligned bounds of the shape's exported geometry)
-    bound an arbitrary polygon / circle, that the rotated bounds of a polygonal position region bound it, and
-    the trigonometric facts tying `(c, s, cl, sl)` to angles (`cos`, `sin`, `arctan`, `min`). These are
-    validated by sampling admissible poses in the harness (labelled a test, not a theorem). -/
-def C04_enclosure_full : Prop :=
-  ∀ (l w ls ws c s cl sl x y px py : Rat),
-    0 ≤ l → 0 ≤ w → |x| ≤ l / 2 → |y| ≤ w / 2 → |px| ≤ ls / 2 → |py| ≤ ws / 2 →
-    c * c + s * s = 1 → cl * cl + sl * sl = 1 → 0 ≤ cl → 0 ≤ sl →
-    ((|s| ≤ sl ∧ 0 ≤ c ∧ l * sl ≤ w * cl) ∨ l * sl = w * cl) →
-    |px + (c * x - s * y)| ≤ (ls + l + |(1 - cl) * l - sl * w|) / 2
+/-- `_centered_extent` (shape.py): the smallest symmetric extent about the centre of rotation `g` that contains
+    everything between `lo` and `hi` is `2·max(hi − g, g − lo)`; every coordinate in `[lo, hi]` is within half of it
+    of `g`. This is what makes the enclosure below valid for shapes whose centre is NOT the local origin (the defect
+    repaired in 565edb2): `x`, `y` below are coordinates relative to the centre of rotation. -/
+theorem C04_centered_extent (lo hi g x : Rat) (h1 : lo ≤ x) (h2 : x ≤ hi) :
+    |x - g| ≤ (2 * max (hi - g) (g - lo)) / 2 := by
+  rw [mul_div_cancel_left₀ _ (by norm_num : (2 : Rat) ≠ 0), abs_le]
+  constructor
+  · have := le_max_right (hi - g) (g - lo); linarith
+  · have := le_max_left (hi - g) (g - lo); linarith
 
-/-- …and its longitudinal half is in fact a consequence of the lemmas above. -/
-theorem C04_enclosure_long : C04_enclosure_full := by
-  intro l w ls ws c s cl sl x y px py hl hw hx hy hpx hpy hu hul hcl hsl hcase
+/-- The enclosure statement for a box (coordinates relative to the centre of rotation), both axes, for the two regimes
+    of the code's formula per axis: `(cl, sl)` / `(cw, sw)` are cosine and sine of `δ_l = min(Δψ, arctan(w/l))` and
+    `δ_w = min(Δψ, arctan(l/w))`; regime "small" means `|δ| ≤ δ_*` (so `|s| ≤ s_*`, `c ≥ 0`) with `δ_*` below the
+    arctan bound, regime "max" means `δ_*` equals the arctan bound. -/
+def C04_enclosure_full : Prop :=
+  ∀ (l w ls ws c s cl sl cw sw x y px py : Rat),
+    0 ≤ l → 0 ≤ w → |x| ≤ l / 2 → |y| ≤ w / 2 → |px| ≤ ls / 2 → |py| ≤ ws / 2 →
+    c * c + s * s = 1 → cl * cl + sl * sl = 1 → 0 ≤ cl → 0 ≤ sl → cw * cw + sw * sw = 1 → 0 ≤ cw → 0 ≤ sw →
+    ((|s| ≤ sl ∧ l * sl ≤ w * cl) ∨ l * sl = w * cl) →
+    ((|s| ≤ sw ∧ w * sw ≤ l * cw) ∨ w * sw = l * cw) →
+    |px + (c * x - s * y)| ≤ (ls + l + |(1 - cl) * l - sl * w|) / 2 ∧
+    |py + (s * x + c * y)| ≤ (ws + w + |(1 - cw) * w - sw * l|) / 2
+
+theorem C04_enclosure : C04_enclosure_full := by
+  intro l w ls ws c s cl sl cw sw x y px py hl hw hx hy hpx hpy hu hul hcl hsl huw hcw hsw hcaseL hcaseW
   have hu' : |c| * |c| + |s| * |s| = 1 := by rw [abs_mul_abs_self, abs_mul_abs_self]; exact hu
-  have hext : l * |c| + w * |s| ≤ l + |(1 - cl) * l - sl * w| := by
-    rcases hcase with ⟨h1, h2, h3⟩ | h
+  have hextl : l * |c| + w * |s| ≤ l + |(1 - cl) * l - sl * w| := by
+    rcases hcaseL with ⟨h1, h3⟩ | h
     · exact C04_extent_le_small l w |c| |s| cl sl hl hw hu' hul (abs_nonneg _) (abs_nonneg _) hcl hsl h1 h3
     · exact C04_extent_le_max l w |c| |s| cl sl hl hw hu' hul hcl hsl h
-  have h1 : |c * x - s * y| ≤ |c| * |x| + |s| * |y| := by
-    calc |c * x - s * y| ≤ |c * x| + |s * y| := abs_sub _ _
-      _ = |c| * |x| + |s| * |y| := by rw [abs_mul, abs_mul]
-  have h3 : |c| * |x| + |s| * |y| ≤ (l * |c| + w * |s|) / 2 := by
-    nlinarith [abs_nonneg c, abs_nonneg s, abs_nonneg x, abs_nonneg y]
-  calc |px + (c * x - s * y)| ≤ |px| + |c * x - s * y| := abs_add_le _ _
-    _ ≤ (ls + l + |(1 - cl) * l - sl * w|) / 2 := by linarith
+  have hextw : w * |c| + l * |s| ≤ w + |(1 - cw) * w - sw * l| := by
+    rcases hcaseW with ⟨h1, h3⟩ | h
+    · exact C04_extent_le_small w l |c| |s| cw sw hw hl hu' huw (abs_nonneg _) (abs_nonneg _) hcw hsw h1 h3
+    · exact C04_extent_le_max w l |c| |s| cw sw hw hl hu' huw hcw hsw h
+  exact C04_enclosure_box l w ls ws _ _ c s x y px py hx hy hpx hpy hextl hextw
+
+/-! What is NOT proved: that shapely's `bounds` of a polygon / rotated position region bound it (GEOS), and the
+    trigonometric facts tying `(c, s, cl, sl, cw, sw)` to angles (`cos`, `sin`, `arctan`, `min`, monotonicity of sine on
+    [0, π/2]). These are validated by sampling admissible poses in the harness (a test, not a theorem). -/
 
 /-! ### non-vacuity -/
 
